@@ -49,6 +49,17 @@ SUITES = {
                "std::panic::resume_unwind -> panic!() (reaching it is reported)"],
         replay_bin="kani/infinity_pool/replay",
     ),
+    "alloc_tracker": dict(
+        kind="incrate", package="alloc_tracker", prefix="folo_verif::",
+        sources=["kani/alloc_tracker/harness.rs"],
+        env={"CARGO_PROFILE_DEV_DEBUG_ASSERTIONS": "false"},
+        functions=["alloc_tracker::Allocator::<A>::{alloc,dealloc,alloc_zeroed,realloc}", "track_allocation", "get_or_init_thread_counters",
+                   "PerThreadCounters::{register_allocation,bytes,count}", "allocation_totals", "ThreadSpan::{new,iterations,drop}", "thread_deltas",
+                   "ProcessSpan::{new,iterations,drop}", "process_deltas", "Operation::{new,measure_thread,measure_process}",
+                   "OperationMetrics::{add_span,merge,total_*}", "folo_utils::SpanAccumulator::{add,merge,span_count}"],
+        stubs=["std::panic::catch_unwind -> call the closure (Kani has no unwinding)"],
+        replay_bin="kani/alloc_tracker/replay",
+    ),
 }
 
 
